@@ -171,7 +171,7 @@ def c11(run):
 def c12(run):
     def gen(g):
         g.floats(q(run, 1500, 40000))
-    return C.execute(run, gen, monitor=M.mon_expect)
+    return C.execute(run, gen, monitor=chain(M.mon_expect, M.mon_decode))
 
 def c13(run):
     def gen(g):
